@@ -62,6 +62,13 @@ pub fn gen_battery(tier: &str, seed: u64) -> String {
                     let m = p.pick(&mods);
                     out.push_str(&format!("remove {}\n", hex(m.start)));
                 }
+                5 if !ids.is_empty() && p.chance(1, 2) => {
+                    // a module registered again (after a removal, or a second time under the
+                    // same start address): whatever the crate does with it, it must do under
+                    // every feature combination
+                    let id = p.pick(&ids).clone();
+                    out.push_str(&format!("add {id}\n"));
+                }
                 3 | 4 => {
                     // the same address with a thread state that fails framehop's sanity checks,
                     // then with a sane one (what is cached after the first call shows in the second)
